@@ -4,7 +4,7 @@ import PikaVerif.Lemmas.CV2
 namespace PikaVerif.CV
 open PikaVerif
 
-attribute [local grind] holds holdsU noU inQ waitExp needTok setPopped b2n isTimed isPred
+attribute [local grind] holds holdsU noU inQ waitExp needTok setPopped b2n isTimed isPred exitPc
 
 theorem popCore_effect (s s' : St) (t z g : Nat) (d : Bool) (pcT : Pc)
     (h : popCore s t z g d pcT = some s') :
@@ -35,25 +35,48 @@ theorem popCore_effect (s s' : St) (t z g : Nat) (d : Bool) (pcT : Pc)
   | false => left; simp [upd]
   | true => right; simp at hdrop; simp [hdrop]
 
+/-- Inside the pop loop of a `notify_all` (public call, or the stop callback). -/
+def allPc : Pc → Bool
+  | .nAll | .cAll _ => true
+  | _ => false
+
+attribute [local grind] allPc
+
+theorem popAll_core' {s s' : St} {u z g : Nat} {d : Bool} (h : step s (.popAll u z g d) = some s') :
+    ∃ pcT, pcT = s.pc u ∧ allPc pcT = true ∧ popCore s u z g d pcT = some s' := by
+  simp only [step] at h
+  split at h
+  case isFalse => simp at h
+  split at h
+  case h_3 => simp at h
+  · rename_i hpc; exact ⟨_, hpc.symm, by simp [allPc], h⟩
+  · rename_i k hpc; exact ⟨_, hpc.symm, by simp [allPc], h⟩
+
+theorem popAll_core {s s' : St} {u z g : Nat} {d : Bool} (h : step s (.popAll u z g d) = some s') :
+    ∃ pcT, popCore s u z g d pcT = some s' := by
+  obtain ⟨pcT, _, _, h⟩ := popAll_core' h
+  exact ⟨pcT, h⟩
+
 theorem nall_step (s s' : St) (hi : Inv s) (e : Ev) (u w : Nat) (hl : s.lock = some u)
-    (hpc : s.pc u = .nAll) (hw : s.waiting w = true) (hne : e ≠ .slRel u) (h : step s e = some s') :
-    (∃ z d, e = .popAll u z w d) ∨ (s'.waiting w = true ∧ s'.lock = some u ∧ s'.pc u = .nAll) := by
+    (hpc : allPc (s.pc u) = true) (hw : s.waiting w = true) (hne : e ≠ .slRel u) (h : step s e = some s') :
+    (∃ z d, e = .popAll u z w d) ∨ (s'.waiting w = true ∧ s'.lock = some u ∧ allPc (s'.pc u) = true) := by
   have hwu : w ≠ u := by
     intro he; subst he
-    have := hi.waitingIff w; rw [hw, hpc] at this; simp [waitExp] at this
+    have := hi.waitingIff w; rw [hw] at this
+    cases hp : s.pc w <;> simp [hp, allPc] at hpc <;> simp [hp, waitExp] at this
   have hlh := hi.lockHolder
   have hwi := hi.waitingIff
   cases e
   case popAll t z g d =>
-    simp only [step] at h
-    split at h
-    case isFalse => simp at h
-    rename_i hg
-    have htu : t = u := by have := hg.2; rw [hl] at this; simpa using this.symm
+    have htu : t = u := by
+      simp only [step] at h
+      split at h
+      case isFalse => simp at h
+      rename_i hg
+      have := hg.2; rw [hl] at this; simpa using this.symm
     subst htu
-    split at h
-    case h_2 => simp at h
-    obtain ⟨_, hw', _, _, _, _, _⟩ := popCore_effect s s' t z g d .nAll h
+    obtain ⟨pcT, hpT, haT, h⟩ := popAll_core' h
+    obtain ⟨_, hw', _, _, _, _, _⟩ := popCore_effect s s' t z g d pcT h
     by_cases hgw : g = w
     · subst hgw; exact Or.inl ⟨z, d, rfl⟩
     · right
@@ -62,7 +85,7 @@ theorem nall_step (s s' : St) (hi : Inv s) (e : Ev) (u w : Nat) (hl : s.lock = s
       all_goals
         simp only [Option.some.injEq] at h
         subst h
-        exact ⟨by simp [upd, Ne.symm hgw, hw], hl, by simp [upd]⟩
+        exact ⟨by simp [upd, Ne.symm hgw, hw], hl, by simp [upd, haT]⟩
   case popResume t z g d =>
     simp only [step] at h
     split at h
@@ -70,8 +93,7 @@ theorem nall_step (s s' : St) (hi : Inv s) (e : Ev) (u w : Nat) (hl : s.lock = s
     rename_i hg
     have htu : t = u := by have := hg.2.1; rw [hl] at this; simpa using this.symm
     subst htu
-    rw [hpc] at h
-    simp at h
+    cases hp : s.pc t <;> simp [hp, allPc] at hpc <;> simp [hp] at h
   case slRel t =>
     right
     simp only [step] at h
